@@ -64,6 +64,15 @@ def _worker(args):
                                       exit=True)
     mod = load(prop)
     kernel.install_seams()
+    import multiprocessing
+    if multiprocessing.current_process().name != 'MainProcess':
+        # the Fortran integrator behind the stand-in solver writes its
+        # warnings straight to file descriptor 1; a pool worker reports
+        # through its pipe only, so its stdout can go
+        try:
+            os.dup2(os.open(os.devnull, os.O_WRONLY), 1)
+        except OSError:
+            pass
     out = {'runs': 0, 'sigs': {}, 'triples': {}, 'probes': {}, 'fired': {},
            'sim_time': 0.0, 'sched_steps': 0, 'failures': [],
            'harness_errors': [], 'samples': [], 'n_ops': 0, 'extra': {},
